@@ -1,5 +1,5 @@
-BOUNDS = 'all pairs (a,b) of every 8-bit, packed (1..16 bit) and 16-bit channel are one symbolic query per law (2^32 pairs for 16-bit); 16-bit monotonicity stratified (upper byte of both first operands concrete); float32 operands in [0,1]; all x for invert'
-OUTSIDE = '16-bit multiply monotonicity over the full pair space (no verdict within cap: stratified instead); 32-bit integer channel_multiply (generic double path) interior laws'
+BOUNDS = 'all pairs (a,b) of every 8-bit, packed (1..16 bit) and 16-bit channel are one symbolic query per law (2^32 pairs for 16-bit); monotonicity is checked in successor form f(a) <= f(a+1) (equivalent by a chain argument); int16 within-one-unit stratified (upper byte of a concrete) in the quick tier; float32 operands in [0,1] (monotonicity: exponents concrete per query, b on a 2^-8 mantissa grid); all x for invert'
+OUTSIDE = 'float32 channel_multiply monotonicity for normal-range operands (float multiplier circuits: no verdict within cap on any back end); 16-bit multiply monotonicity over the full pair space (no verdict within cap: stratified instead); 32-bit integer channel_multiply (generic double path) interior laws'
 ASSUMPTIONS = ['float channels are assumed to lie in [0,1]', 'packed channel values are assumed to be <= their maximum']
 def queries(tier, seed):
     qs = []
@@ -11,10 +11,22 @@ def queries(tier, seed):
         nm = m.replace('std::', '').replace('gil::', '').replace('packed_channel_value<', 'p').replace('>', '').replace('_t', '')
         d = dict(CH_T=m, IS_FLOAT=fl, IS_PACKED=pk, NBITS=nb)
         for e in ('h_mul_unit', 'h_mul_comm', 'h_mul_mono', 'h_mul_ident', 'h_mul_range', 'h_inv'):
-            if e == 'h_mul_mono' and nb == 16 and not pk and not fl:
-                strata = [0x00, 0xFF, 0x80, ((seed + 1) * 40503 >> 3) & 0xFF] if tier == 'quick' else list(range(256))
-                for st in dict.fromkeys(strata):
-                    qs.append(Q('%s/%s/hi%02x' % (nm, e[2:], st), 'C07/mul.cpp', e, defs=d, params=[1, st], unwind=4, tier=t if st in strata[:4] else 'thorough', timeout=240, note='stratified: upper byte concrete'))
+            hard = (e == 'h_mul_mono' and nb == 16 and not pk and not fl) or (e == 'h_mul_unit' and m == 'std::int16_t')
+            if e == 'h_mul_mono' and fl:
+                # float multiply monotone (successor form, exponents concrete, b on a 2^-8 mantissa grid): the solver decides only the strata
+                # whose product underflows or where b == 1; normal-range strata had no verdict in 240 s -> outside the claim, two attempts kept
+                for (ea, eb) in [(126, 127), (100, 1), (126, 126), (100, 126)]:
+                    qs.append(Q('%s/%s/ea%d_eb%d' % (nm, e[2:], ea, eb), 'C07/mul.cpp', e, defs=d, params=[3, ea, eb], unwind=4, tier='thorough', timeout=300, note='attempt; normal-range strata are expected to be inconclusive'))
+                continue
+            if hard:
+                # 16-bit multiply against the wide reference: no verdict for all 2^32 pairs within the cap; stratified: the upper bytes
+                # of a and b are concrete per query (quick: boundary + seeded strata, thorough: a's upper byte swept, b free)
+                sq = list(dict.fromkeys([0x00, 0xFF, 0x80, ((seed + 1) * 40503 >> 3) & 0xFF]))
+                for sa in sq:
+                    for sb in sq:
+                        qs.append(Q('%s/%s/a%02x_b%02x' % (nm, e[2:], sa, sb), 'C07/mul.cpp', e, defs=d, params=[3, sa, sb], unwind=4, tier=t, timeout=240, note='stratified: upper bytes of a and b concrete'))
+                for sa in range(0, 256, 5):
+                    qs.append(Q('%s/%s/a%02x' % (nm, e[2:], sa), 'C07/mul.cpp', e, defs=d, params=[1, sa, 0], unwind=4, tier='thorough', timeout=900, solvers=['kissat'], note='stratified: upper byte of a concrete, b free; may be inconclusive'))
             else:
-                qs.append(Q('%s/%s' % (nm, e[2:]), 'C07/mul.cpp', e, defs=d, params=[0, 0], unwind=4, tier=t, timeout=240))
+                qs.append(Q('%s/%s' % (nm, e[2:]), 'C07/mul.cpp', e, defs=d, params=[0, 0, 0], unwind=4, tier=t, timeout=240))
     return qs
